@@ -142,7 +142,9 @@ class ParserTotal(BoundedCheck):
         if list(_w.filters) != filters_before:
             _w.filters[:] = filters_before
             out.append(Violation('parsing has no effect outside the returned objects (process-wide warning filters)', 'c13.side-effect:warnings-filters', s, 'unchanged', 'changed', 'no_effect'))
-        leaked = {k: sorted(set(v) - names_before[k]) for k, v in namespaces.items() if set(v) - names_before[k]}
+        # (`__warningregistry__` is CPython's own per-module bookkeeping for a warning issued while the syntax check executes a statement -
+        # the recorded exec() finding F13 - not a name bound by the statement text)
+        leaked = {k: sorted(set(v) - names_before[k] - {'__warningregistry__'}) for k, v in namespaces.items() if set(v) - names_before[k] - {'__warningregistry__'}}
         if leaked:
             for k, nms in leaked.items():
                 for nm in nms:
